@@ -7,7 +7,7 @@ import vlib
 
 LEVEL = "model_checking"
 GEN = """SPECIFICATION Spec
-CONSTANTS MaxFilters = %d PoolKind = "%s"
+CONSTANTS MaxFilters = %d PoolKind = "%s" BreakOnExclude = %s
 INVARIANT IAgreesWithP
 CONSTRAINT Emit
 CHECK_DEADLOCK FALSE
@@ -22,9 +22,13 @@ CHECK_DEADLOCK FALSE
 
 def run(ctx):
     fails, named = [], {}
-    plans = [("f1-small", 1, "small", None), ("f2-pairs", 2, "pairs", None), ("f2-full-sim", 3, "full", "num=%d" % (40000 if ctx.tier == "quick" else 600000))]
+    bad = ctx.tlc_check("MCTagStage", ctx.write_cfg("MCTagStage.break.cfg", GEN.replace("CONSTRAINT Emit\n", "") % (2, "chain", "TRUE")),
+                        label="an exclude hit ends the filter chain (must fail)", must_pass=False, timeout=3000)
+    if bad.violated != "IAgreesWithP":
+        raise vlib.MachineryError("vacuity: the break-on-exclude variant was not refuted")
+    plans = [("f1-small", 1, "small", None), ("f2-pairs", 2, "pairs", None), ("f2-chain", 2, "chain", None), ("f2-full-sim", 3, "full", "num=%d" % (40000 if ctx.tier == "quick" else 600000))]
     for label, mf, pool, sim in plans:
-        cfg = ctx.write_cfg("MCTagStage.%s.cfg" % label, GEN % (mf, pool))
+        cfg = ctx.write_cfg("MCTagStage.%s.cfg" % label, GEN % (mf, pool, "FALSE"))
         cases = ctx.path("tags-%s.ndjson" % label)
         if sim:
             n = ctx.tlc_generate("MCTagStage", cfg, cases, label=label, simulate=sim, depth=mf + 1, workers=1, timeout=3000)
